@@ -143,6 +143,67 @@ Theorem C12_fast_nil_asis_refuted :
 Proof. exact fast_asis_nil_refuted. Qed.
 Print Assumptions C12_fast_nil_asis_refuted.
 
+(* ---- escaped string literals ---- *)
+(* A quoted literal that contains a backslash never gets a shortcut, alone or as a part of a flat
+   chain: the predicate is decided by the general evaluator, for every row. *)
+Theorem C12_escaped_literal_never_shortcut : forall (s : shape) (r : row),
+  match s with
+  | SCmp c => has_escaped_lit c
+  | SChain _ cs => exists c, In c cs /\ has_escaped_lit c
+  end ->
+  compile_fast s = None /\ fast s r = None /\ evaluate s r = eval_general s r.
+Proof. exact escaped_literal_never_shortcut. Qed.
+Print Assumptions C12_escaped_literal_never_shortcut.
+
+(* What the general evaluator reads: \xHH and \ooo denote the CODE POINT, written as UTF-8 ... *)
+Theorem C12_hex_escape_is_a_code_point : forall h l hv lv rest,
+  hex_val h = Some hv -> hex_val l = Some lv ->
+  unescape (92 :: 120 :: h :: l :: rest)%N = uapp (utf8_encode (hv * 16 + lv)%N) (unescape rest).
+Proof. exact unescape_hex_escape. Qed.
+Print Assumptions C12_hex_escape_is_a_code_point.
+
+Theorem C12_octal_escape_is_a_code_point : forall a b c av bv cv rest,
+  oct_val a = Some av -> (av < 4)%N -> oct_val b = Some bv -> oct_val c = Some cv ->
+  unescape (92 :: a :: b :: c :: rest)%N = uapp (utf8_encode ((av * 8 + bv) * 8 + cv)%N) (unescape rest).
+Proof. exact unescape_octal_escape. Qed.
+Print Assumptions C12_octal_escape_is_a_code_point.
+
+(* ... which from \x80 / \200 on is at least two bytes, never the single byte HH that Go's
+   strconv.Unquote gives: decoding the literal that way does not yield the literal's value. *)
+Theorem C12_code_point_above_ascii_is_not_one_byte : forall v : N,
+  (128 <= v)%N -> (2 <= length (utf8_encode v))%nat.
+Proof. exact utf8_encode_above_ascii. Qed.
+Print Assumptions C12_code_point_above_ascii_is_not_one_byte.
+
+(* x == 'caf\xe9': the general evaluator accepts "café" (UTF-8) and rejects the Latin-1 byte string; a
+   shortcut comparing with the byte reading answers the opposite on both rows; the code's declines. *)
+Theorem C12_escape_byte_reading_refuted :
+  let lit := [99; 97; 102; 92; 120; 101; 57]%N in
+  let s := SCmp (mkCmp [120%N] OEq2 (LStr lit)) in
+  let utf := [([120%N], VStr [99; 97; 102; 195; 169]%N)] in
+  let lat := [([120%N], VStr [99; 97; 102; 233]%N)] in
+  let bytefast := mkF [120%N] OEq2 (FLStr [99; 97; 102; 233]%N) in
+  compiles s = true /\ str_value lit = UOk [99; 97; 102; 195; 169]%N /\
+  general s utf = GB true /\ general s lat = GB false /\
+  fast_cmp_eval bytefast utf = Some false /\ fast_cmp_eval bytefast lat = Some true /\
+  fast s utf = None /\ fast s lat = None.
+Proof. exact escaped_hex_byte_reading_refuted. Qed.
+Print Assumptions C12_escape_byte_reading_refuted.
+
+(* the escape decoder on samples: \t, é, \u{1F600}, \377, \U0001F600, a surrogate half (U+FFFD),
+   eight digits from 80000000 on (one byte), and texts that do not compile (\x4', \477, \q, \U00110000) *)
+Example C12_unescape_samples :
+  unescape [97; 92; 116; 98]%N = UOk [97; 9; 98]%N /\
+  unescape [92; 117; 48; 48; 101; 57]%N = UOk [195; 169]%N /\
+  unescape [92; 117; 123; 49; 70; 54; 48; 48; 125]%N = UOk [240; 159; 152; 128]%N /\
+  unescape [92; 51; 55; 55]%N = UOk [195; 191]%N /\
+  unescape [92; 85; 48; 48; 48; 49; 70; 54; 48; 48]%N = UOk [240; 159; 152; 128]%N /\
+  unescape [92; 117; 100; 56; 48; 48]%N = UOk [239; 191; 189]%N /\
+  unescape [92; 85; 70; 70; 70; 70; 70; 70; 52; 49]%N = UOk [65]%N /\
+  unescape [92; 120; 52]%N = UBad /\ unescape [92; 52; 55; 55]%N = UBad /\
+  unescape [92; 113]%N = UBad /\ unescape [92; 85; 48; 48; 49; 49; 48; 48; 48; 48]%N = UBad.
+Proof. vm_compute. repeat split; reflexivity. Qed.
+
 (* ---- non-vacuity: the hypotheses are satisfiable and the shortcuts do answer ---- *)
 (* "x >= 5 && y == 'ab'" read from its text, on x = int32(7), y = "ab": chain shortcut answers true;
    on x = nil the chain is left to the general evaluator, whose evaluation fails: rejected *)
